@@ -204,7 +204,7 @@ partial def reparse : List Tree → List Bool → Option (List Tree × List Bool
 
 def parseNorm (flags : List Bool) (html : Str) : Option (List Tree) :=
   match parse (renameSvg (stripDoctype html)) with
-  | some t => (reparse t flags).map (fun x => normList x.1)
+  | some t => (reparse t flags).map (fun x => Leptos.Macro.normList x.1)
   | none => none
 
 def className : Option Nat → String
